@@ -155,3 +155,48 @@ Example C15_missing_name_nonvacuous :
       /\ prep_run (ex_define :: [] ++ [mk T_Semi [59]])
          = [(T_Error, 8, Some (ErrPrep PEDefineName)); (T_Eof, 0, None)]).
 Proof. vm_compute. repeat split; reflexivity. Qed.
+
+(** * Text level (C14 and C15 combined): a text that is a sequence of specification-level lexical pieces
+    (LexSpec: tokens, separators, directives; not merged by maximal munch) whose piece sequence is the
+    rendering of a well-nested arrangement: the parser is handed exactly the selected tokens. *)
+From Coq Require Import String.
+From TG.Model Require Import LexSpec.
+From TG.Proofs Require LexPrepText.
+Open Scope list_scope.
+
+Theorem C15_selects_lexed : forall (ps : list piece) (items : list item),
+  forallb valid_piece_d ps = true -> not_merged ps = true ->
+  map LexPrepText.rtok_of_piece ps = render_items items -> items_ok items = true ->
+  filter not_pp (prep_text (render ps)) = map deliver (snd (select [] items)) ++ [eof_entry].
+Proof. exact LexPrepText.selects_text_pieces. Qed.
+Check C15_selects_lexed : forall (ps : list piece) (items : list item),
+  forallb valid_piece_d ps = true -> not_merged ps = true ->
+  map LexPrepText.rtok_of_piece ps = render_items items -> items_ok items = true ->
+  filter not_pp (prep_text (render ps)) = map deliver (snd (select [] items)) ++ [eof_entry].
+Print Assumptions C15_selects_lexed.
+
+(** non-vacuity:  #ifndef A / class X; / #else / zz# / #endif / def Y;   (as pieces) *)
+Definition lx (k : TokenKind) (s : String.string) : piece := mkpiece k (cps s).
+Definition rt (k : TokenKind) (s : String.string) : rtok := LexPrepText.rtok_of_piece (lx k s).
+Definition nl : piece := mkpiece T_Whitespace [10].
+Definition ex_lexed_pieces : list piece :=
+  [ lx T_Ifndef "#ifndef"; lx T_Whitespace " "; lx T_Id "A"; nl; lx T_Class "class"; lx T_Whitespace " "; lx T_Id "X";
+    lx T_Semi ";"; nl; lx T_Else "#else"; nl; lx T_Id "zz"; lx T_Paste "#"; nl; lx T_Endif "#endif"; nl;
+    lx T_Def "def"; lx T_Whitespace " "; lx T_Id "Y"; lx T_Semi ";" ]%string.
+Definition ex_lexed_items : list item :=
+  [ ICond IfNdef (mkhead (rt T_Ifndef "#ifndef") [rt T_Whitespace " "] (rt T_Id "A"))
+      [ ITok (LexPrepText.rtok_of_piece nl); ITok (rt T_Class "class"); ITok (rt T_Whitespace " "); ITok (rt T_Id "X");
+        ITok (rt T_Semi ";"); ITok (LexPrepText.rtok_of_piece nl) ]
+      (Some (rt T_Else "#else", [ ITok (LexPrepText.rtok_of_piece nl); ITok (rt T_Id "zz"); ITok (rt T_Paste "#");
+                                   ITok (LexPrepText.rtok_of_piece nl) ]))
+      (rt T_Endif "#endif");
+    ITok (LexPrepText.rtok_of_piece nl); ITok (rt T_Def "def"); ITok (rt T_Whitespace " "); ITok (rt T_Id "Y");
+    ITok (rt T_Semi ";") ]%string.
+Example C15_selects_lexed_nonvacuous :
+  forallb valid_piece_d ex_lexed_pieces = true /\ not_merged ex_lexed_pieces = true
+  /\ map LexPrepText.rtok_of_piece ex_lexed_pieces = render_items ex_lexed_items
+  /\ items_ok ex_lexed_items = true
+  /\ filter not_trivia (prep_text (render ex_lexed_pieces))
+     = [(T_Class, 5, None); (T_Id, 1, None); (T_Semi, 1, None); (T_Def, 3, None); (T_Id, 1, None); (T_Semi, 1, None);
+        (T_Eof, 0, None)].
+Proof. vm_compute. repeat split; reflexivity. Qed.
